@@ -46,17 +46,23 @@ inductive Iter where
   | rep (c : Term)                           -- `itertools.repeat(c)`
   | cycle (cur all : List Term)              -- `itertools.cycle(all)`, `cur` = rest of the current round
   | chain (a b : Iter)                       -- `itertools.chain(a, b)`
-  | mapc (f : Name) (pre post : List Term) (a : Iter)
-                                             -- `map(lambda x: f(*pre, x, *post), a)` / `(f(*pre, x, *post) for x in a)`
+  | mapc (g : Bool) (f : Name) (pre post : List Term) (a : Iter)
+                                             -- `g = false`: the map object `map(lambda x: f(*pre, x, *post), a)`;
+                                             -- `g = true` : the generator expression `(f(*pre, x, *post) for x in a)`.
+                                             --   Same items as long as no element operation raises; an exception
+                                             --   leaves a map object usable and FINISHES a generator (`Iter.stepE`)
   | map2 (f : Name) (a b : Iter)             -- `map(f, a, b)`
+  | dead (a : Iter)                          -- a generator finished by an exception; `a` = its source, frozen
   deriving Repr, Inhabited
 
 /-- `map(f, a)` -/
-abbrev Iter.map1 (f : Name) (a : Iter) : Iter := .mapc f [] [] a
+abbrev Iter.map1 (f : Name) (a : Iter) : Iter := .mapc false f [] [] a
+/-- `(f(x) for x in a)` -/
+abbrev Iter.gen1 (f : Name) (a : Iter) : Iter := .mapc true f [] [] a
 /-- `map(lambda x: f(c, x), a)` -/
-abbrev Iter.mapL (f : Name) (c : Term) (a : Iter) : Iter := .mapc f [c] [] a
+abbrev Iter.mapL (f : Name) (c : Term) (a : Iter) : Iter := .mapc false f [c] [] a
 /-- `map(lambda x: f(x, c), a)` -/
-abbrev Iter.mapR (f : Name) (a : Iter) (c : Term) : Iter := .mapc f [] [c] a
+abbrev Iter.mapR (f : Name) (a : Iter) (c : Term) : Iter := .mapc false f [] [c] a
 
 /-- `next(it)`: the item (or `none` = StopIteration) and the iterator state afterwards.
     `map(f, a, b)` asks `a` first and does not touch `b` when `a` has ended (CPython `map_next`);
@@ -72,10 +78,10 @@ def Iter.step : Iter → Option Term × Iter
     match a.step with
     | (some x, a') => (some x, .chain a' b)
     | (none, _) => b.step          -- `chain` drops an exhausted iterator for good
-  | .mapc f pre post a =>
+  | .mapc g f pre post a =>
     match a.step with
-    | (some x, a') => (some (.app f (pre ++ x :: post)), .mapc f pre post a')
-    | (none, a') => (none, .mapc f pre post a')
+    | (some x, a') => (some (.app f (pre ++ x :: post)), .mapc g f pre post a')
+    | (none, a') => (none, .mapc g f pre post a')
   | .map2 f a b =>
     match a.step with
     | (none, a') => (none, .map2 f a' b)
@@ -83,6 +89,7 @@ def Iter.step : Iter → Option Term × Iter
       match b.step with
       | (none, b') => (none, .map2 f a' b')
       | (some y, b') => (some (.app f [x, y]), .map2 f a' b')
+  | .dead a => (none, .dead a)
 
 /-- `Stream.take(n)` / `list(islice(it, n))`: at most `n` items, stops at the first StopIteration.
     Returns the items and the iterator state left behind (for the read counts). -/
@@ -109,7 +116,7 @@ def Iter.stepTrace : Iter → List Term
     match a.step with
     | (some _, _) => a.stepTrace
     | (none, _) => a.stepTrace ++ b.stepTrace
-  | .mapc f pre post a =>
+  | .mapc _ f pre post a =>
     match a.step with
     | (some x, _) => a.stepTrace ++ [.app f (pre ++ x :: post)]
     | (none, _) => a.stepTrace
@@ -120,6 +127,7 @@ def Iter.stepTrace : Iter → List Term
       match b.step with
       | (none, _) => a.stepTrace ++ b.stepTrace
       | (some y, _) => a.stepTrace ++ b.stepTrace ++ [.app f [x, y]]
+  | .dead _ => []
 
 /-- the computations of every `next` of `take(n)` (the last entry is the failing `next`, if any) -/
 def Iter.runT : Nat → Iter → List (List Term)
@@ -135,8 +143,9 @@ def Iter.unread : Iter → List (Nat × Nat)
   | .rep _ => []
   | .cycle _ _ => []
   | .chain a b => a.unread ++ b.unread
-  | .mapc _ _ _ a => a.unread
+  | .mapc _ _ _ _ a => a.unread
   | .map2 _ a b => a.unread ++ b.unread
+  | .dead a => a.unread
 
 /-! ## The operator table: `OpMethod` and the metaclass -/
 
@@ -222,6 +231,55 @@ def installLoop (T : TableSrc) : List OpMethod → List (Name × Dunder) → Opt
 
 def install (T : TableSrc) : Option (List (Name × Dunder)) := installLoop T (initializeOps T) []
 
+/-! ### any user of the metaclass: `__operators__` / `__without__` queries, missing builders -/
+
+/-- `repr(op)` : `"<{} operator method ('{}' symbol)>".format(self.name, self.symbol)` -/
+def OpMethod.reprStr (o : OpMethod) : Name :=
+  n!"<" ++ o.name ++ n!" operator method ('" ++ o.symbol ++ n!"' symbol)>"
+
+/-- the string keys under which `_insert` files the entry in `OpMethod._all`
+    (`["all", symbol, name, dname, func, arity, str(arity)]`, plus `"r"` for reversed ones) -/
+def OpMethod.keys (o : OpMethod) : List Name :=
+  [n!"all", o.symbol, o.name, o.dname, [Char.ofNat (48 + o.arity)]] ++ (if o.rev then [n!"r"] else [])
+
+/-- `cls._all[key]` (insertion order); `none` = KeyError -/
+def allLookup (ops : List OpMethod) (key : Name) : Option (List OpMethod) :=
+  match ops.filter (fun o => o.keys.contains key) with
+  | [] => none
+  | l => some l
+
+/-- `OpMethod.get(key, without)` for lists of string queries: every match of every key, in the order asked
+    for, minus the entries matched by `without`; `none` = ValueError (unknown operator / "div") -/
+def getOps (ops : List OpMethod) (keys without : List Name) : Option (List OpMethod) := do
+  let ign ← without.mapM (allLookup ops)
+  let sel ← keys.mapM (allLookup ops)
+  pure (sel.flatten.filter fun o => !(ign.flatten.contains o))
+
+inductive InstallErr where
+  | valueError                 -- unknown operator in `__operators__` / `__without__`
+  | keyError                   -- no entry `(rev, arity)` in the builder dict
+  | noBuilder (dname : Name)   -- "Class '…' has no builder/template for operator method '…'" (TypeError)
+  deriving DecidableEq, Repr
+
+/-- The loop of `__new__` for a metaclass that overrides the builders `hv` only (the abstract ones
+    return NotImplemented, which is not callable) and a class body binding the names `ns`. -/
+def installLoopW (T : TableSrc) (hv : Builder → Bool) (ns : List Name) :
+    List OpMethod → List (Name × Dunder) → Except InstallErr (List (Name × Dunder))
+  | [], acc => .ok acc
+  | op :: ops, acc =>
+    if ns.contains op.dname then installLoopW T hv ns ops acc
+    else
+      match (T.dispatch.lookup (op.rev, op.arity)).bind builderOfName with
+      | none => .error .keyError
+      | some b =>
+        if hv b then installLoopW T hv ns ops (assocSet op.dname ⟨op.dname, b, op.func⟩ acc)
+        else .error (.noBuilder op.dname)
+
+def installW (T : TableSrc) (hv : Builder → Bool) (ns keys without : List Name) : Except InstallErr (List (Name × Dunder)) :=
+  match getOps (initializeOps T) keys without with
+  | none => .error .valueError
+  | some ops => installLoopW T hv ns ops []
+
 /-! ## The Stream class -/
 
 /-- Python values that occur as operands. -/
@@ -286,8 +344,10 @@ inductive Py where
   | stream2 (a b : Py)                   -- `Stream(a, b)`
   | un (dname : Name) (self : Py)        -- `self.__neg__()`
   | bin (dname : Name) (self other : Py) -- `self.__add__(other)`, `self.__radd__(other)`, …
-  | meth (label : Name) (self : Py)      -- `self.map(f)`, `abs(self)`, `self.attr`, `self(*args)`:
-                                         --   all are `Stream(f(a) for a in self._data)` for an `f` named by the label
+  | meth (g : Bool) (label : Name) (self : Py)
+                                         -- `g = false`: `self.map(f)`, `abs(self)` = `xmap(f, self._data)`;
+                                         -- `g = true` : `self.attr`, `self(*args)` = `Stream(f(a) for a in self._data)`
+                                         --   (a generator expression), for an `f` named by the label
   | append (self other : Py)             -- `self.append(other)`
   deriving Repr, Inhabited
 
@@ -316,10 +376,10 @@ def evalPy (tbl : List (Name × Dunder)) : Py → Except Err Val
     let vo ← evalPy tbl o
     let it ← asStream vs
     callDunder tbl d it (some vo)
-  | .meth l s => do
+  | .meth g l s => do
     let vs ← evalPy tbl s
     let it ← asStream vs
-    pure (.iterable true (.map1 l it))
+    pure (.iterable true (.mapc g l [] [] it))
   | .append s o => do
     let vs ← evalPy tbl s
     let vo ← evalPy tbl o
@@ -442,10 +502,10 @@ def ECall.isPositional (c : ECall) : Bool :=
 def ECall.data (c : ECall) : Iter :=
   if c.isPositional then
     let p := c.pos.getD 0
-    .mapc c.f (c.args.take p) (c.args.drop (p + 1) ++ kwFlat c.kwargs) c.arg.iter
+    .mapc true c.f (c.args.take p) (c.args.drop (p + 1) ++ kwFlat c.kwargs) c.arg.iter
   else
     let s := kwSplit c.dname c.kwargs
-    .mapc c.f (c.args ++ s.1) s.2 c.arg.iter
+    .mapc true c.f (c.args ++ s.1) s.2 c.arg.iter
 
 /-- `func(*args, **kwargs)`: the placeholder slot holds the object itself -/
 def ECall.plainCall (c : ECall) : Term :=
